@@ -39,7 +39,10 @@ RULE = (
     "characters over {a,b,+,space} x 6 binding lists, random beyond; 12% of the random lines carry non-ASCII characters on "
     "which Python's \\w and the identifier class agree. build: random specifications x call style x arity. find: random "
     "expression trees (depth<=4) over 1-4 table names with nested/repeated call sites. query: add_cpp_function metadata "
-    "(1-4 generated specifications, functions and methods, value and collection results) plus the built-ins, a tuple of "
+    "(1-4 generated specifications, functions and methods, value and collection results over double/float/int/bool and over "
+    "object types by value, pointer and const pointer — Trk, Trk*, const Trk*, xAOD::TrackParticle*, const xAOD::TrackParticle* — "
+    "consumed by Count(), by summing the elements' pt() or by .pt() so that the declared variable type and the ./-> access are "
+    "observed) plus the built-ins, a tuple of "
     "1-4 columns each a tree of injected calls nested to depth 3, run through apply_ast_transformations + write_cpp_files "
     "on the ATLAS (80%) and both CMS back ends. Non-trivial: subst - a parameter occurs in the line (as a word or inside "
     "one); build/find/query - at least one call site of an injected function. Distinct = distinct input."
@@ -254,9 +257,23 @@ def in_force(case: Dict[str, Any]) -> Dict[str, Any]:
     return tab
 
 
-def is_collection_root(t: Dict[str, Any], tab: Dict[str, Any]) -> bool:
+def is_object_type(ty: str) -> bool:
+    return ty not in gen.TYPES
+
+
+def wrap_of(t: Dict[str, Any], tab: Dict[str, Any]) -> Optional[str]:
+    """How the column is consumed so that it can be written to the tree: a collection is counted (or, for a
+    collection of objects, the pt() of its elements summed), an object-valued result has its pt() taken."""
     h = tab.get(t.get("f"))
-    return isinstance(h, dict) and "spec" in h and bool(h["spec"]["isCollection"])
+    if not (isinstance(h, dict) and "spec" in h):
+        return None
+    sp = h["spec"]
+    if sp["isCollection"]:
+        return "sum" if (is_object_type(sp["retType"]) and t.get("wrap") == "sum") else "count"
+    return "pt" if is_object_type(sp["retType"]) else None
+
+
+WRAP_SRC = {None: "", "count": ".Count()", "sum": ".Select(lambda t: t.pt()).Sum()", "pt": ".pt()"}
 
 
 def count_sites(t: Dict[str, Any]) -> int:
@@ -265,7 +282,7 @@ def count_sites(t: Dict[str, Any]) -> int:
 
 def select_src(case: Dict[str, Any]) -> str:
     tab = in_force(case)
-    cols = [tree_src(c) + (".Count()" if is_collection_root(c, tab) else "") for c in case["cols"]]
+    cols = [tree_src(c) + WRAP_SRC[wrap_of(c, tab)] for c in case["cols"]]
     return "lambda j: " + (cols[0] if len(cols) == 1 else "(" + ", ".join(cols) + ")")
 
 
@@ -283,14 +300,27 @@ def observe_query(case: Dict[str, Any]) -> Tuple[Dict[str, Any], str]:
     except Exception as e:  # the generated text has a shape the parser does not know: report, do not guess
         return {"unparsed": f"{type(e).__name__}: {e}"}, "i_obj0"
     tab = in_force(case)
-    cols, k = list(b["cols"]), 0
+    cols, k, access = list(b["cols"]), 0, []
     for i, c in enumerate(case["cols"]):
-        if is_collection_root(c, tab) and i < len(cols):
+        w = wrap_of(c, tab)
+        if w is None or i >= len(cols):
+            continue
+        ty = tab[c["f"]]["spec"]["retType"]
+        if w in ("count", "sum"):
             if k < len(b["loops"]):
-                cols[i] = b["loops"][k]["coll"]  # the collection the Count() loop iterates: the result variable must be it
+                lp = b["loops"][k]
+                cols[i] = lp["coll"]  # the collection the loop iterates: the result variable must be it
+                if w == "sum":
+                    m = re.search(r"\b%s(->|\.)pt\(\)" % re.escape(lp["var"]), " ".join(lp["body"]))
+                    access.append({"ty": ty, "op": m.group(1) if m else "?", "where": f"element of the collection returned by {c['f']}"})
             k += 1
+        else:
+            m = re.fullmatch(r"(\w+)(->|\.)pt\(\)", cols[i])
+            if m:
+                cols[i] = m.group(1)
+            access.append({"ty": ty, "op": m.group(2) if m else "?", "where": f"result of {c['f']}"})
     obs = {"decls": [d[:2] for d in b["decls"] if len(d) == 2], "blocks": b["blocks"], "cols": cols,
-           "includes": b["includes"], "bad": b["bad"]}
+           "includes": b["includes"], "bad": b["bad"], "access": access}
     return obs, b["loop_var"]
 
 
@@ -303,7 +333,7 @@ def query_request(case: Dict[str, Any], obs: Optional[Dict[str, Any]], loop_var:
     req = {"op": "query", "reW": re_w, "idW": id_w, "builtins": driver_table(case["backend"]), "specs": list(reversed(case["specs"])),
            "env": [["j", loop_var]], "cols": cols, "start": 2}
     if obs is not None and "unparsed" not in obs:
-        req["obs"] = {k: v for k, v in obs.items() if k not in ("bad", "msg")}
+        req["obs"] = {k: v for k, v in obs.items() if k not in ("bad", "msg", "access")}
     return req
 
 
@@ -369,7 +399,8 @@ def requests_for(case: Dict[str, Any], r: Dict[str, Any]) -> List[Dict[str, Any]
             qs.append({"op": "find", "table": case["table"], "expr": r["ok"]})  # NoPendingFull of what the code returned
         return qs
     if k == "query":
-        return [query_request(case, r["obs"], r["loop_var"])]
+        return [query_request(case, r["obs"], r["loop_var"])] + [
+            {"op": "access", "ty": a["ty"], "opr": a["op"]} for a in r["obs"].get("access", [])]
     raise ValueError(k)
 
 
@@ -390,10 +421,13 @@ def judge(case: Dict[str, Any], r: Dict[str, Any], ans: List[Dict[str, Any]]) ->
             why = ("accepted although arity/call style do not match the specification" if ("ok" in r and not a["accepts"]) else
                    f"refused ({r.get('err')}) although arity and call style match" if ("err" in r and a["accepts"]) else
                    f"wrong exception class {r.get('err')}" if "err" in r else
-                   "the accepted call does not carry the specification (arguments, code, result, includes, type, receiver binding)")
+                   "the accepted call does not carry the specification (arguments, code, result, includes, type of the result variable, receiver binding)")
+        if why is not None and "ok" in r and "ok" in a and r["ok"].get("declType") != a.get("declType"):
+            why = (f"the result variable is declared with type '{r['ok'].get('declType')}', the declared return type "
+                   f"('{case['spec']['retType']}', collection={case['spec']['isCollection']}) requires '{a.get('declType')}'")
         if "ok" in a:
-            m = dict(a["ok"])
-            i = {x: r["ok"][x] for x in m} if "ok" in r else r
+            m = dict(a["ok"], declType=a.get("declType"))
+            i = {x: r["ok"].get(x) for x in m} if "ok" in r else r
             dis = None if m == i else (m, i)
         else:
             dis = None if r.get("err") == a.get("cls") else (a, r)
@@ -418,6 +452,9 @@ def judge(case: Dict[str, Any], r: Dict[str, Any], ans: List[Dict[str, Any]]) ->
         if obs.get("bad"):
             return obs["bad"][0], None
         why = None if a["holds"] else a["why"]
+        for acc, aa in zip(obs.get("access", []), ans[1:]):
+            if why is None and not aa["holds"]:
+                why = f"{acc['where']} (declared type '{acc['ty']}') is accessed with '{acc['op']}', the declared type requires '{aa['want']}'"
         if "ok" in a:
             if "err" in obs:
                 dis = (a["ok"], obs)
@@ -512,6 +549,18 @@ def note_distribution(ctx, c, r, a):
         ctx.count("query:sites:%d" % min(sum(count_sites(x) for x in c["cols"]), 8))
         depth = max((_depth(x) for x in c["cols"]), default=0)
         ctx.count("query:nesting:%d" % depth)
+        tab = in_force(c)
+        for col in c["cols"]:
+            for t in subtrees(col):
+                h = tab.get(t.get("f"))
+                if isinstance(h, dict) and "spec" in h:
+                    sp = h["spec"]
+                    kind = ("collection of " if sp["isCollection"] else "") + (
+                        "value" if not is_object_type(sp["retType"]) else "const pointer" if sp["retType"].startswith("const ") else
+                        "pointer" if sp["retType"].endswith("*") else "object")
+                    ctx.count("query:result:" + kind)
+        for acc in obs.get("access", []):
+            ctx.count("query:access:" + acc["op"])
         if not (a.get("wf", True) and a.get("prefixOk", True)):
             ctx.count("query:outside-hypotheses")
 
